@@ -248,6 +248,8 @@ def check(chk):
            "start_time" in [a.arg for a in spc.node.args.args], spc.where(pc_[0]) if pc_ else spc.where(), detail=str(kw_), construct=spc.ident, text="step time handed to players")
     from sa.rules.c09 import _suppression as _c09_suppression
     _c09_suppression(chk, repo)
+    from sa.rules.c09 import _batch_skip_and_fadeout_source as _c09_bsf
+    _c09_bsf(chk, repo)
 
     # ------------------------------------------------------------ FLOW-8
     lp = repo.cls(LP, "LightPlayer")
@@ -776,6 +778,7 @@ def _token_cache(chk, repo):
 def battery():
     from sa.battery import M
     return [
+        M("fade-out starts from the colour on top of the stack", "mpf/devices/light.py", "            color_of_key = self._get_color_and_fade(stack, 0)[0]", "            color_of_key = self._get_color_and_fade(self.stack, 0)[0]", "FADE-2"),
         M("step time not handed to the players", "mpf/core/config_player.py", "show_tokens=show_tokens, context=context, start_time=start_time)", "show_tokens=show_tokens, context=context)", "FWD-17"),
         M("remembered fade compared by its start colour", "mpf/devices/light.py", "target_color == self._last_fade_target[2]", "target_color == self._last_fade_target[0]", "SUPP-1"),
         M("conditional show stopped under the subscription key", "mpf/config_players/show_player.py", "                self._stop(show_key, instance_dict, show.name, show_settings, False, None, {})", "                self._stop(key, instance_dict, show.name, show_settings, False, None, {})", "SUBS-17"),
